@@ -205,6 +205,9 @@ def gen_fiber(rng, uid, *, length=None, whole_km=False, allow_none_con=True, max
                 perm = rng.sample(range(4), 4)
                 tab = {k: [v[i] for i in perm] for k, v in tab.items()}
             params['dispersion_per_frequency'] = tab
+        elif r < 0.6:
+            # a normal-dispersion fibre (element-level scalar, negative)
+            params['dispersion'] = pick(rng, [-4e-06, -8e-06])
     if lumped and length > 3:
         n = rng.randint(1, 2)
         pos = sorted(rnd(rng, 0.1 * length, 0.9 * length, 3) for _ in range(n))
